@@ -65,6 +65,7 @@ func rulesC15(c *Ctx) {
 	c.scanLocalsCopied("R5", "GetPendingProofs", map[string]string{"witness": "Witness"})
 	c.scanLocalsCopied("R5", "GetPendingProofsByQuote", map[string]string{"witness": "Witness"})
 	c.c15PendingToSpentKeepsFields()
+	c.readersReturnEveryRow("R5", "GetProofsUsed", "GetPendingProofs", "GetPendingProofsByQuote", "GetBlindSignatures")
 }
 
 // c15PendingToSpentKeepsFields: R7. When a pending melt is settled later (poll / state check), the proofs that go
